@@ -203,6 +203,7 @@ def chord_cases(rng, n):
             if step < 250.0 and d[2] / math.sqrt(sum(v * v for v in d)) < 0.05:
                 step = float(rng.choice([500.0, 1000.0, 2500.0, 250.0]))     # keep sample counts <= ~5e4
             cases.append((model, (float(xy[0]), float(xy[1]), float(-depth)), d, step))
+    cases += outside_cases(rng, max(8, n // 3))
     return cases
 
 
@@ -254,6 +255,44 @@ def slant(ctx, impl, model, p, d, step):
                  "%s.slant_depth(endpoint=%r, direction=%r, step=%r) gives no result: %s" % (model, p, d, step, e),
                  {"kind": "chord", "model": model, "endpoint": list(p), "direction": list(d), "step": step})
         raise
+
+
+def outside_cases(rng, n):
+    """Endpoints OUTSIDE the sphere (z >= -(x^2+y^2)/(2R): shallow depth with a large horizontal offset, exactly
+    on the sphere, or z > 0) with directions of prescribed closest approach R - delta: entering the Earth after a
+    long vacuum path, grazing it (inside for metres to kilometres), tangent, or missing it."""
+    out = []
+    for model in MODELS:
+        R = REF[model][0]
+        for _ in range(n):
+            rho = 10 ** rng.uniform(3.5, 5.7)                     # horizontal offset 3 km .. 500 km
+            ph = rng.uniform(0, 2 * math.pi)
+            x, y = rho * math.cos(ph), rho * math.sin(ph)
+            zs = math.sqrt(R * R - rho * rho) - R                  # the sphere below (x, y)
+            kind = rng.random()
+            z = zs if kind < 0.15 else zs * rng.uniform(0.0, 0.999) if kind < 0.6 else min(0.0, zs + rng.uniform(0, 3000)) if kind < 0.8 else rng.uniform(0, 500)
+            if z < zs:
+                z = zs
+            e = (x, y, z + R)
+            ne = math.sqrt(sum(c * c for c in e))
+            if ne < R:
+                continue
+            delta = rng.choice([-100.0, -1.0, 0.0, 0.01, 1.0, 10.0, 40.0, 100.0, 1000.0, 30000.0, 10 ** rng.uniform(-1, 5)])
+            rmin = R - delta
+            sa = min(1.0, rmin / ne)
+            ca = math.sqrt(max(0.0, 1 - sa * sa))
+            eh = tuple(-c / ne for c in e)
+            # a unit vector perpendicular to e
+            w = (rng.gauss(0, 1), rng.gauss(0, 1), rng.gauss(0, 1))
+            dot = sum(a * b for a, b in zip(w, eh))
+            w = tuple(a - dot * b for a, b in zip(w, eh))
+            nw = math.sqrt(sum(c * c for c in w))
+            d = tuple(ca * a + sa * b / nw for a, b in zip(eh, w))
+            if rng.random() < 0.1:
+                d = tuple(-c for c in d)                          # pointing away: never enters
+            scale = rng.choice([1.0, 1.0, 3.0, 0.01])
+            out.append((model, (x, y, z), tuple(c * scale for c in d), float(rng.choice([500.0, 500.0, 100.0, 250.0, 1000.0]))))
+    return out
 
 
 def impl_models():
